@@ -12,7 +12,30 @@ def _verdict_stats(lines, verdicts):
     unsat = sum(1 for v in verdicts if v[0] == 'ok' and v[2][:1] == ['2'])
     return dict(verdict_sat=sat, verdict_unsat=unsat)
 
+def _hist_nontrivial(sx, v, meta):
+    return v[0] == 'ok' and len(v[2]) > 0 and int(v[2][0]) >= 2
+
 PROPS = {
+    'C09': dict(
+        judge='C09', judge_module='Judge.J09', judge_fn='judge_C09',
+        cases=dict(quick=6000, thorough=60000),
+        rule='base problems (CNF, unit-rich, 3-SAT, cardinality, PB; 2..8 variables quick, 2..12 thorough) x histories of 1..8 '
+             'operations Solve | AppendClause(c) ending with a Solve; c = clause (20% repeated literal, 10% tautology, up to 2 '
+             'brand-new variables), empty or unit clause, cardinality constraint, PB constraint (through PBConstr.Clause()); '
+             'non-trivial = history with at least 2 Solve operations',
+        nontrivial=_hist_nontrivial,
+        assumptions=['constraints whose normalised degree is < 1 are not added (NewPBClause documents a panic)',
+                     'added cardinality/PB constraints mention each variable once'],
+    ),
+    'C10': dict(
+        judge='C10', judge_module='Judge.J09', judge_fn='judge_C10',
+        cases=dict(quick=6000, thorough=60000),
+        rule='base CNF problems (mixed, unit-rich, 3-SAT; 2..9 variables quick, 2..14 thorough) x 1..6 rounds of Assume+Solve; '
+             'a round is: empty list, the previous list again, both polarities of a variable, the negation of the previous '
+             'round, a repeated literal, or 1..4 literals over distinct variables; non-trivial = at least 2 rounds',
+        nontrivial=_hist_nontrivial,
+        assumptions=['assumed literals are over variables of the problem'],
+    ),
     'C01': dict(
         judge='solve', judge_module='Judge.J01', judge_fn='judge_solve_case',
         cases=dict(quick=10000, thorough=60000),
@@ -48,6 +71,18 @@ PROPS = {
         nontrivial=lambda sx, v, meta: v[0] == 'ok' and len(v[2]) > 1 and int(v[2][1]) > 0,
         stats=_verdict_stats,
         assumptions=['cost literals are over distinct variables (as the property states)'],
+    ),
+    'C04': dict(
+        judge='C04', judge_module='Judge.J04', judge_fn='judge_C04',
+        cases=dict(quick=6000, thorough=60000),
+        rule='random weighted partial MaxSAT instances over 1..7 (quick) / 1..10 (thorough) names, 1..n+4 constraints, each hard '
+             'or soft with weight 1..5; API route: clauses, cardinality constraints (nil coefficients, degree 1..len), PB '
+             'constraints (coefficients 1..4, occasionally 0 or negative, degree 0..sum+1); WCNF route (channel and nil): declared '
+             'n = max or max+1 or max+3, top absent / above the sum / small (weights >= top are hard); non-trivial = hard part '
+             'satisfiable and optimum > 0',
+        nontrivial=lambda sx, v, meta: v[0] == 'ok' and len(v[2]) > 1 and int(v[2][1]) > 0,
+        stats=_verdict_stats,
+        assumptions=['soft weights >= 1 (as the property states)'],
     ),
     'C05': dict(
         judge='C05', judge_module='Judge.J05', judge_fn='judge_C05',
